@@ -13,3 +13,5 @@ import Hifi.Props.C20
 import Hifi.Props.C07
 import Hifi.Props.C17
 import Hifi.Props.C08
+import Hifi.Props.C11
+import Hifi.Props.C13Duration
